@@ -296,4 +296,9 @@ def check(ctx):
                           'can_change(Down, %s) is constant false' % o, construct='down-row:' + o)
         c01.r3_writers(ctx, f, c09._Rename(rep, 'C01-R3', 'C11-R5'))
         c09.r5_forget(ctx, f, c09._Rename(rep, 'C09-R5', 'C11-R5'))
+        rep.rule('C11-R6', 'the epoch the token check refers to really changes whenever the instance stops being active: every '
+                           'function that leaves Connected or resets the instance bumps the token (C13-R1 re-run)')
+        from . import c13
+        from .lib.effects import Effects as _Eff
+        c13.r1_bumps(ctx, f, c09._Rename(rep, 'C13-R1', 'C11-R6'), _Eff(f))
     rep.cur_config = None
